@@ -1,0 +1,38 @@
+//go:build verif
+
+// Contracts for govc (see /verif/DESIGN.md). Comment-only: no executable code with or without the tag.
+
+package obfs4
+
+//@ import bytes "bytes"
+//@ import net "net"
+//@ import time "time"
+//@ import transports "github.com/refraction-networking/conjure/pkg/transports"
+
+// C04 "relay deadlines set on the wrapped connection (requires the wrapped connection to support deadlines)": the
+// station's relay gives up on a connection whose SetDeadline fails. The connection a match returns is therefore the
+// deadline-capable wrapper around the obfs4 connection, and its three deadline methods act on the connection the
+// client arrived on (where all of the obfs4 connection's I/O happens).
+// C03: fewer bytes than the minimum client handshake are answered with try-again, the buffer is not consumed.
+//@ func (t Transport) WrapConnection(data *bytes.Buffer, c net.Conn, phantom net.IP, regManager transports.RegManager) (transports.Registration, net.Conn, error)
+//@   requires data != nil && regManager != nil
+//@   ensures @C04: result2 == nil ==> typeis(result1, *deadlineConn) && unboxptr(result1, *deadlineConn) != nil && unboxptr(result1, *deadlineConn).under == c
+//@   ensures @C03: old(len(bufStr(data))) < ClientMinHandshakeLength ==> result2 == transports.ErrTryAgain && result0 == nil && result1 == nil && bufStr(data) == old(bufStr(data))
+//@ loop 1:
+//@   invariant data != nil && regManager != nil && old(len(bufStr(data))) >= ClientMinHandshakeLength
+
+//@ func (c *deadlineConn) SetDeadline(t time.Time) error
+//@   requires c != nil && c.under != nil
+//@   atcall SetDeadline before: assert @C04: arg0 == c.under && arg1 == t
+//@   atcall SetDeadline before: snap delegated := true
+//@   ensures @C04: defined(delegated)
+//@ func (c *deadlineConn) SetReadDeadline(t time.Time) error
+//@   requires c != nil && c.under != nil
+//@   atcall SetReadDeadline before: assert @C04: arg0 == c.under && arg1 == t
+//@   atcall SetReadDeadline before: snap delegated := true
+//@   ensures @C04: defined(delegated)
+//@ func (c *deadlineConn) SetWriteDeadline(t time.Time) error
+//@   requires c != nil && c.under != nil
+//@   atcall SetWriteDeadline before: assert @C04: arg0 == c.under && arg1 == t
+//@   atcall SetWriteDeadline before: snap delegated := true
+//@   ensures @C04: defined(delegated)
